@@ -307,11 +307,26 @@ Lemma loop_checked c n a stop st off :
 Proof.
   intros Hc Hst values. unfold loop_path. fold values. rewrite Hc.
   destruct (st =? 0) eqn:Z0; [lia|].
-  destruct (negb (off =? 0) && match values with [] => true | _ => false end) eqn:E.
+  destruct (negb (off =? 0) && negb (empty_ok c) && match values with [] => true | _ => false end) eqn:E.
   - right. destruct values; [|rewrite andb_false_r in E; discriminate]. split; reflexivity.
   - left. cbn [andb]. unfold guard.
     destruct (all_in n (map (fun v => v + off) values)) eqn:A; cbn [negb]; [|reflexivity].
     apply loop_tail_ok. apply all_in_Forall. exact A.
+Qed.
+
+(* with the empty-range repair the loop path is exactly the guarded Modelica selection *)
+Lemma loop_checked_exact c n a stop st off :
+  chk_loop c = true -> empty_ok c = true -> st <> 0 ->
+  loop_path c n a stop st off =
+  guard n (map (fun v => v + off) (pyrange a (if mod3 c then stop + sgn1 st else stop + st) st)).
+Proof.
+  intros Hc He Hst. unfold loop_path. cbv zeta. rewrite Hc, He.
+  destruct (st =? 0) eqn:Z0; [lia|].
+  cbn [negb]. rewrite andb_false_r. cbn [andb]. unfold guard.
+  destruct (all_in n (map (fun v => v + off)
+             (pyrange a (if mod3 c then stop + sgn1 st else stop + st) st))) eqn:A;
+    cbn [negb]; [|reflexivity].
+  apply loop_tail_ok. apply all_in_Forall. exact A.
 Qed.
 
 Lemma loop_in_range c n a b off :
@@ -325,8 +340,8 @@ Proof.
   assert (Hall : Forall (fun k => 1 <= k <= n) (map (fun v => v + off) (pyrange a (b + 1) 1))).
   { rewrite Forall_map. apply Forall_pyrange. intros i Hi. rewrite pylen_1 in Hi. cbn beta.
     specialize (Hin (a + i * 1)). lia. }
-  destruct (negb (off =? 0) && match pyrange a (b + 1) 1 with [] => true | _ => false end) eqn:E.
-  - exfalso. destruct Hne as [->|Hab]; [discriminate|].
+  destruct (negb (off =? 0) && negb (empty_ok c) && match pyrange a (b + 1) 1 with [] => true | _ => false end) eqn:E.
+  - exfalso. destruct Hne as [->|Hab]; [cbn in E; discriminate|].
     destruct (pyrange_cons a (b + 1) 1) as (tl & Hc & _); [rewrite pylen_1; lia|].
     rewrite Hc in E. rewrite andb_false_r in E. discriminate.
   - unfold guard. replace (all_in n (map (fun v => v + off) (pyrange a (b + 1) 1))) with true
@@ -403,6 +418,32 @@ Proof.
   - cbn [index modelica]. rewrite (H3 eq_refl).
     pose proof (loop_checked c n a c3 b off Hl Hstep) as H.
     cbv zeta in H. rewrite (H3 eq_refl) in H. exact H.
+Qed.
+
+Lemma two_part_wf c u : three_part u = false -> wf c u.
+Proof.
+  intros H. split; [destruct u; cbn in *; (discriminate || lia)|rewrite H; discriminate].
+Qed.
+
+Lemma index_checked_exact c n u :
+  chk_slice c = true -> chk_loop c = true -> empty_ok c = true -> wf c u -> 0 <= n ->
+  index c n u = modelica n u.
+Proof.
+  intros Hs Hl He (Hstep & H3) Hn.
+  destruct u as [i| |a b|a b c3|a b off|a b c3 off]; cbn [step_of three_part] in *.
+  - apply index_int.
+  - cbn [index modelica]. rewrite Hs. rewrite slice_checked by (assumption || lia).
+    apply guard_colon.
+  - cbn [index modelica]. apply slice_checked; (assumption || lia).
+  - cbn [index modelica]. rewrite (H3 eq_refl). apply slice_checked; assumption.
+  - cbn [index modelica]. pose proof (loop_checked_exact c n a b 1 off Hl He ltac:(lia)) as H.
+    unfold mrange.
+    replace (if mod3 c then b + sgn1 1 else b + 1) with (b + sgn1 1) in H
+      by (unfold sgn1; change (0 <? 1) with true; destruct (mod3 c); reflexivity).
+    exact H.
+  - cbn [index modelica]. rewrite (H3 eq_refl).
+    pose proof (loop_checked_exact c n a c3 b off Hl He Hstep) as H.
+    rewrite (H3 eq_refl) in H. exact H.
 Qed.
 
 (* consequences of `agrees` *)
